@@ -25,6 +25,10 @@ import (
 // the js/wasm build of the library: its own derivation and validation (derive_rfc4226_wasm.go, validate_wasm.go)
 var wantedWasm = []string{"Digits.Int", "truncate", "pow10Wasm", "DeriveRFC4226Wasm", "ValidateOTPWasm"}
 
+// the binding (wasm/main.go): argument parsing, the five callbacks with their own window loops
+var wantedMain = []string{"parseStringArg", "parseIntArg", "generateOTP", "parseArgsAndGenerate", "generateHOTP", "generateTOTP",
+	"validateHOTP", "validateTOTP", "generateOTPURL"}
+
 // the functions to translate, callees before callers
 var wanted = []string{
 	"Digits.Int", "DecodeSecret",
@@ -60,6 +64,7 @@ type tr struct {
 	globalAssoc  map[string]bool
 	ifaceUsed    map[string]bool
 	structsBad   string
+	mainMode     bool // translating wasm/main.go (package main): errors are their text, library calls go to Src / SrcWasm
 }
 
 type fnInfo struct {
@@ -104,6 +109,11 @@ func main() {
 			wasm = true
 			wanted = wantedWasm
 		}
+		if os.Args[i] == "-main" {
+			wasm = true
+			t.mainMode = true
+			wanted = wantedMain
+		}
 		if os.Args[i] == "-skip" && i+1 < len(os.Args) {
 			for _, s := range strings.Split(os.Args[i+1], ",") {
 				if s != "" {
@@ -118,7 +128,11 @@ func main() {
 		env = append(env, "GOOS=js", "GOARCH=wasm")
 	}
 	cfg := &packages.Config{Mode: packages.LoadAllSyntax, Dir: repo, Env: env, Fset: t.fset}
-	pkgs, err := packages.Load(cfg, ".")
+	pattern := "."
+	if t.mainMode {
+		pattern = "./wasm"
+	}
+	pkgs, err := packages.Load(cfg, pattern)
 	if err != nil || len(pkgs) != 1 || packages.PrintErrors(pkgs) > 0 {
 		fmt.Fprintln(os.Stderr, "gen_model: load failed", err)
 		os.Exit(1)
@@ -158,7 +172,16 @@ func main() {
 	var b strings.Builder
 	b.WriteString("(* GENERATED from the Go sources of " + repo + " by /verif/tools/gen_model — do not edit. *)\n")
 	b.WriteString("From Coq Require Import String.\nFrom OtpV Require Import Prelude Sha GoSem Rfc4648 Errors Decoder Otp Ocra Utils Suite Url.\nOpen Scope N_scope.\n\n")
-	b.WriteString(t.globals())
+	if t.mainMode {
+		b.WriteString("From OtpV Require Import Wasm Src SrcWasm.\n")
+		b.WriteString("Definition js_type_go (v : jsval) : res bytes := match js_type_name v with Some n => Val n | None => Pnc end.\n")
+		b.WriteString("Definition js_string_go (v : jsval) : bytes := match v with JStr s => s | _ => [] end.\n")
+		b.WriteString("Definition js_int_go (v : jsval) : res Z := match v with JNum n => Val (js_int n) | _ => Pnc end.\n")
+		b.WriteString("Definition idxJ (l : list jsval) (i : Z) : res jsval := if (i <? 0)%Z then Pnc else match nth_error l (Z.to_nat i) with Some v => Val v | None => Pnc end.\n")
+		b.WriteString("Definition err_text (e : err) : bytes := match render e with Some t => t | None => s2b \"?\" end.\n\n")
+	} else {
+		b.WriteString(t.globals())
+	}
 	for _, q := range wanted {
 		t.translate(q)
 	}
